@@ -53,6 +53,14 @@ def eval_polygon(case):
             thetas.append(th)
             want.append(d)
             meta.append(u)
+        # the direction whose angle is exactly 0: angles a few ulps below 0 reduce to exactly 2 pi in floating point and are
+        # still that direction to 1e-16 (the distance is continuous there)
+        ur = pl.rot([u[0], u[1], 0])
+        if ur[1] == 0 and ur[0] > 0:
+            for th in (-1e-17, -2e-16, -4.4e-16, float(np.nextafter(0.0, -1.0)), 2 * math.pi - 4.4e-16, float(np.nextafter(2 * math.pi, 7.0))):
+                thetas.append(th)
+                want.append(d)
+                meta.append(u + ["angle_just_below_a_multiple_of_2pi"])
     thetas = np.array(thetas)
     want = np.array(want)
     size = float(np.max(np.linalg.norm(v3 - v3.mean(axis=0), axis=1)))
